@@ -294,7 +294,7 @@ Print Assumptions C17_fill_array_surplus_3_refuted.
 (* ---------------- IMP cards, materials, --lattice strings ---------------- *)
 
 Theorem C17_imp_unequal_rejected : forall T (S : Scalar T) (d : deckm (T:=T)) rows r1 r2,
-  expand_cards (d_imps d) = Ok rows -> In r1 rows -> In r2 rows ->
+  expand_cards S (d_imps d) = Ok rows -> In r1 rows -> In r2 rows ->
   List.length r1 <> List.length r2 -> is_ok (validate S d) = false.
 Proof. exact @run_imp_unequal_rejected. Qed.
 Print Assumptions C17_imp_unequal_rejected.
@@ -473,6 +473,35 @@ Theorem C17_arrives_options_arrays : forall T (S : Scalar T) trs,
 Proof. exact @p_C17_arrives_options_arrays. Qed.
 Print Assumptions C17_arrives_options_arrays.
 
+(* the first entry of a FILL array: nR has nothing to repeat (result[-1] of an
+   empty list: a bare IndexError, whatever follows); nJ is consumed like any
+   other entry *)
+Theorem C17_fill_array_first_entry : forall T (S : Scalar T) trs,
+  (forall star first rs t0 (more : list (tok (T:=T))) b n,
+     has_colon first = true -> forallb has_colon rs = true -> has_colon t0 = false ->
+     parse_ranges (map tsp (first :: rs)) = Ok b -> (0 < bounds_size b)%Z ->
+     last_char (strip_ws (tsp t0)) = Some "r"%char -> reps (strip_ws (tsp t0)) = Some n ->
+     parse_fill S star trs (first :: rs ++ t0 :: more)%list = Err EIndex) /\
+  (forall e first rs t0 n0 l more b m n rest k,
+     prefix "imp" (tsp e) = false -> contains_sub "fill" (tsp e) = true ->
+     has_colon first = true -> forallb has_colon rs = true -> has_colon t0 = false ->
+     parse_ranges (map tsp (first :: rs)) = Ok b ->
+     last_char (strip_ws (tsp t0)) = Some "j"%char ->
+     reps (strip_ws (tsp t0)) = Some (Z.of_nat n0) -> (1 <= n0)%nat ->
+     items l m -> Z.of_nat (n0 + m) = bounds_size b ->
+     fill_params S true (contains_char "*" (tsp e)) trs more = Ok (n, rest) ->
+     exists k', arrives S trs (e :: first :: rs ++ t0 :: l ++ more)%list k rest k' 1).
+Proof. exact @p_C17_fill_array_first_entry. Qed.
+Print Assumptions C17_fill_array_first_entry.
+
+(* nI and xM on a card read as floats (IMP cards): 1 2I 4 3M = 1 2 3 4 12 *)
+Example expand_interpolate_multiply :
+  expand FS [mkTok "1" (sofZ FS 1) 1; mkTok "2i" (sofZ FS 0) 0; mkTok "4" (sofZ FS 4) 4;
+             mkTok "3m" (sofZ FS 3) 0]%Z None [] 0
+  = XOk [Some (sofZ FS 1, 1%Z); Some (sofZ FS 2, 0%Z); Some (sofZ FS 3, 0%Z); Some (sofZ FS 4, 0%Z);
+         Some (sofZ FS 12, 0%Z)] 4.
+Proof. vm_compute. reflexivity. Qed.
+
 (* FILL=0:1 0:1 0:0 3 3R : the entries behind the first one *)
 Example items_example : forall T (S : Scalar T), items [tk S "3r" 0]%Z 3.
 Proof.
@@ -634,7 +663,7 @@ Theorem C17_finished_run_is_clean : forall T (S : Scalar T) (d : deckm (T:=T)),
   (forall s, In s (d_surfs d) ->
      (In (sf_mn s) macros /\ In (List.length (sf_params s)) (macro_arities (sf_mn s))) \/
      (In (sf_mn s) elementary /\ elem_accepts (sf_mn s) (List.length (sf_params s)) = true)) /\
-  (forall rows, expand_cards (d_imps d) = Ok rows ->
+  (forall rows, expand_cards S (d_imps d) = Ok rows ->
      forall r1 r2, In r1 rows -> In r2 rows -> List.length r1 = List.length r2) /\
   (d_skipcomp d = false ->
    forall m l, In m (d_mats d) -> mat_pairs m = Ok l ->
